@@ -7,7 +7,6 @@ mkdir -p .bin .work evidence replays
 rc=0
 for d in checks/c*/; do
   lc=$(basename "$d")
-  if [ -x "$d/build.sh" ]; then "$d/build.sh" ".bin/$lc" || rc=1
-  else go build -o ".bin/$lc" "./$d" || rc=1; fi
+  tools/build_check.sh "$lc" ".bin/$lc" || rc=1
 done
 exit $rc
